@@ -649,8 +649,8 @@ fn c09(tier: Tier) -> CheckDef {
     );
     let bvals = boundary_u64();
     let nb = bvals.len() as u64;
-    let wide = tier.pick(1u64 << 16, 1u64 << 22);
-    subs.push(Sub::new("leb-write-read", wide / 256 + 1, "write/size/read identity and minimality: all values < 2^16 (quick) / 2^22 (thorough) and their negations, plus 2^k-1, 2^k, 2^k+1, !2^k, -2^k for k<64 and byte-shift patterns", move |ctx, i| {
+    let wide = tier.pick(1u64 << 22, 1u64 << 22); // cheap: thorough bound in both tiers
+    subs.push(Sub::new("leb-write-read", wide / 256 + 1, "write/size/read identity and minimality: all values < 2^22 and their negations, plus 2^k-1, 2^k, 2^k+1, !2^k, -2^k for k<64 and byte-shift patterns", move |ctx, i| {
         if i == wide / 256 {
             for &v in &bvals {
                 check_write_leb(ctx, v);
